@@ -442,9 +442,18 @@ func (g *GoBackNConn) sendPacketsForever() error {
 			default:
 			}
 
-			// Start the pong timer.
-			g.pongTicker.Reset()
-			g.pongTicker.Resume()
+			// Start the pong timer, unless it is still running for
+			// an earlier ping that has not been answered: any
+			// packet from the peer pauses it, so an active pong
+			// timer means that the peer has been silent since that
+			// ping. Restarting it then would push its expiry out on
+			// every ping tick, and with a ping interval shorter
+			// than the pong timeout a dead peer would never be
+			// detected.
+			if !g.pongTicker.IsActive() {
+				g.pongTicker.Reset()
+				g.pongTicker.Resume()
+			}
 
 			// Also reset the ping timer.
 			g.pingTicker.Reset()
@@ -509,9 +518,13 @@ func (g *GoBackNConn) sendPacketsForever() error {
 				default:
 				}
 
-				// Start the pong timer.
-				g.pongTicker.Reset()
-				g.pongTicker.Resume()
+				// Start the pong timer, unless it is still
+				// running for an unanswered earlier ping (see
+				// above).
+				if !g.pongTicker.IsActive() {
+					g.pongTicker.Reset()
+					g.pongTicker.Resume()
+				}
 
 				// Also reset the ping timer.
 				g.pingTicker.Reset()
